@@ -32,6 +32,10 @@ FALLBACK = {'Fault': 'genuine SIGALRM injected at every distinct (block, stateme
                      'pairs of faults), generation must complete and the resulting library must pass the C03 oracle'}
 MODELLED = ["simplifier.py:sympy_simplify", "simplifier.py:expand_or_factor", "simplifier.py:check_results", "simplifier.py:make_changes"]
 
+# persistent-fault campaign: (basis, complexity) -> (lineage selectors at sites next to a recording statement, at other sites, exact selectors too?)
+PERSIST_PLAN_QUICK = {("core_maths", 2): (8, 2, False), ("core_maths", 3): (8, 2, False)}
+PERSIST_PLAN_DEEP = {("core_maths", 2): (8, 8, True), ("core_maths", 3): (8, 4, True), ("core_maths", 4): (6, 2, False), ("ext_maths", 3): (8, 2, False)}
+
 BASES = {"core_maths": [["x", "a"], ["inv"], ["+", "*", "-", "/", "pow"]],
          "ext_maths": [["x", "a"], ["inv", "sqrt_abs", "square", "exp"], ["+", "*", "-", "/", "pow"]]}
 
@@ -79,12 +83,59 @@ def _sites(rec):
     return sites
 
 
-def _check_one(ctx, copy, basisname, basis, compl, faults, tag):
-    res = _run(ctx, copy, tag, basis, compl, dict(mode="inject", faults=faults))
-    rp = dict(kind="inject", basis=basisname, compl=compl, faults=faults)
+def _twins(src_text):
+    """line -> lines of the same statement in the other arm of a two-armed conditional (`if expand_fun: X = f(..) else: X = g(..)`):
+    a function that is slow at the one is slow at the other, so a persistent fault site is the whole group."""
+    import ast
+    out = {}
+    try:
+        tree = ast.parse(src_text)
+    except SyntaxError:
+        return out
+    for n in ast.walk(tree):
+        if isinstance(n, ast.If) and n.orelse and len(n.body) == len(n.orelse):
+            for a, b in zip(n.body, n.orelse):
+                if isinstance(a, ast.Assign) and isinstance(b, ast.Assign) and \
+                        [ast.unparse(t) for t in a.targets] == [ast.unparse(t) for t in b.targets]:
+                    g = sorted(set(out.get(a.lineno, [a.lineno])) | set(out.get(b.lineno, [b.lineno])))
+                    for l in g:
+                        out[l] = g
+    return out
+
+
+def _psites(rec, twins):
+    """persistent-fault sites: (fn, with_line, (lines..)) -> sorted function strings that reached one of the lines in the recording run.
+    Every distinct (block, statement) pair is a site; a statement with twins (see _twins) is in addition a site together with them."""
+    src = rec.get("_src") or []
+    sites = {}
+    for a in rec["log"]:
+        for line in set(a["lines"]):
+            if not _deliverable(src, line):
+                continue
+            for grp in {(line,), tuple(twins.get(line, [line]))}:
+                sites.setdefault((a["fn"], a["with_line"], grp), set())
+                if a.get("fid") is not None:
+                    sites[(a["fn"], a["with_line"], grp)].add(a["fid"])
+    return {k: sorted(v) for k, v in sites.items()}
+
+
+def _check_one(ctx, copy, basisname, basis, compl, faults, tag, persist=None):
+    if persist is not None:
+        res = _run(ctx, copy, tag, basis, compl, dict(mode="inject", persist=persist))
+        rp = dict(kind="persist", basis=basisname, compl=compl, persist=persist)
+        faults = "persistently (every activation of %s)" % "; ".join(
+            "%s block at line %d, statement line(s) %s, functions %s" % (
+                p_["fn"], p_["with_line"], p_["lines"],
+                "all" if p_["sel"]["kind"] == "all" else "%s of %s" % (p_["sel"]["kind"], p_["sel"]["seed"])) for p_ in persist)
+    else:
+        res = _run(ctx, copy, tag, basis, compl, dict(mode="inject", faults=faults))
+        rp = dict(kind="inject", basis=basisname, compl=compl, faults=faults)
     fired = res.get("fired", [])
-    out = dict(fired=fired, fails=[])
-    site = ";".join("%s:%d" % (f[2], f[3]) for f in fired) or "none"
+    out = dict(fired=fired, fails=[], nfired=res.get("nfired", len(fired)))
+    if persist is not None:
+        site = "persist:" + ";".join("%s:%s:%s" % (p_["fn"], "+".join(str(l) for l in p_["lines"]), p_["sel"]["kind"]) for p_ in persist)
+    else:
+        site = ";".join("%s:%d" % (f[2], f[3]) for f in fired) or "none"
     if res["rc"] != 0 or res.get("status") != "ok":
         err = (res.get("error") or "")
         kind = err.split(":")[0] if err else str(res["rc"])
@@ -111,6 +162,7 @@ def run(ctx):
             [("core_maths", 2, 2, None, False), ("core_maths", 3, 2, None, False), ("core_maths", 4, 1, None, False), ("ext_maths", 3, 1, None, False),
              ("ext_maths", 4, 1, 60, True)])
     jobs = []
+    pjobs = []
     nsites = {}
     try:
         # statements that record something, as the translator reads them (also inside helpers, whatever the spelling)
@@ -146,21 +198,50 @@ def run(ctx):
             for _ in range(40 if len(allacts) >= 2 else 0):
                 (k1, n1), (k2, n2) = ctx.rng.sample(allacts, 2)
                 jobs.append((basisname, compl, [[k1, ctx.rng.choice(n1)], [k2, ctx.rng.choice(n2)]]))
+        # ---- persistent faults: the same function times out at the same statement EVERY time it gets there ----------------
+        # (every round of both do_sympy loops, and check_results' own block): one fault per run never shows what the handlers
+        # leave behind when the NEXT round cannot repair it either.
+        pplan = PERSIST_PLAN_DEEP if deep else PERSIST_PLAN_QUICK
+        if (basisname, compl) in pplan:
+            nlin_prio, nlin_rest, exact = pplan[(basisname, compl)]
+            ps = _psites(rec, _twins("\n".join(src)))
+            npers = 0
+            for (fn_, wl_, lines_) in sorted(ps):
+                fids = list(ps[(fn_, wl_, lines_)])
+                ctx.rng.shuffle(fids)
+                isprio = len(lines_) > 1 or any(l in mutl or ".append(" in src[l - 1] or (l >= 2 and ".append(" in src[l - 2]) or
+                             any(t in src[l - 1] for t in ("str_fun[i] =", "sym_fun[i] =", "inv_subs_fun[i] =")) for l in lines_)
+                sels = [dict(kind="all")] + [dict(kind="lineage", seed=[f_]) for f_ in fids[:(nlin_prio if isprio else nlin_rest)]]
+                if exact:
+                    sels += [dict(kind="exact", seed=[f_]) for f_ in fids[:2]]
+                for sel in sels:
+                    pjobs.append((basisname, compl, [dict(fn=fn_, with_line=wl_, lines=list(lines_), sel=sel)]))
+                    npers += 1
+            nsites["%s:%d" % (basisname, compl)]["persistent_sites"] = len(ps)
+            nsites["%s:%d" % (basisname, compl)]["persistent_runs"] = npers
     ctx.extra["sites"] = nsites
     fired_sites = set()
-    with cf.ThreadPoolExecutor(max_workers=12) as ex:
+    pfired = set()
+    with cf.ThreadPoolExecutor(max_workers=14) as ex:
         futs = {ex.submit(_check_one, ctx, copy, b, BASES[b], c, f, "j%d" % i): (b, c, f) for i, (b, c, f) in enumerate(jobs)}
+        for i, (b, c, ps_) in enumerate(pjobs):
+            futs[ex.submit(_check_one, ctx, copy, b, BASES[b], c, None, "p%d" % i, ps_)] = (b, c, ps_)
         for fu in cf.as_completed(futs):
             b, c, f = futs[fu]
             r = fu.result()
             ctx.case((b, c, json.dumps(f)), nontrivial=bool(r["fired"]))
+            if f and isinstance(f[0], dict) and r["fired"]:
+                pfired.add((f[0]["fn"], tuple(f[0]["lines"])))
+                ctx.extra["persistent_max_timeouts_in_one_run"] = max(ctx.extra.get("persistent_max_timeouts_in_one_run", 0), r.get("nfired", 0))
             for fi in r["fired"]:
                 fired_sites.add((fi[2], fi[3]))
             for key, what, rp in r["fails"]:
                 ctx.fail(key, what, rp)
             if r["fired"] and not r["fails"]:
-                ctx.sample(dict(basis=b, compl=c, fault=f, fired_at=r["fired"], library="sound", rows=r.get("stats", {}).get("rows")), cap=6)
+                ctx.sample(dict(basis=b, compl=c, fault=f, fired_at=r["fired"][:6], library="sound", rows=r.get("stats", {}).get("rows")), cap=6)
     ctx.extra["fired_sites"] = sorted("%s:%d" % s for s in fired_sites)
+    ctx.extra["persistent_fired_sites"] = sorted("%s:%s" % (fn_, "+".join(map(str, ls))) for fn_, ls in pfired)
+    ctx.extra["persistent_runs"] = len(pjobs)
     ctx.extra["corr_obligations"] = 1
     ctx.extra["corr_discharged"] = int(not ctx.failures)
 
@@ -168,8 +249,8 @@ def run(ctx):
 def replay(ctx, data):
     rp = data["replay"]
     copy = common.fresh_copy(ctx, "c15r")
-    r = _check_one(ctx, copy, rp["basis"], BASES[rp["basis"]], rp["compl"], rp["faults"], "replay")
-    print("fired:", r["fired"])
+    r = _check_one(ctx, copy, rp["basis"], BASES[rp["basis"]], rp["compl"], rp.get("faults"), "replay", persist=rp.get("persist"))
+    print("fired (%d timeouts delivered; first ones):" % r.get("nfired", len(r["fired"])), r["fired"][:12])
     for key, what, _ in r["fails"]:
         print(what)
     return not r["fails"]
